@@ -9,8 +9,8 @@ use crate::{
     convert::STD_NUM_NONZERO_PREFIX,
     type_entry::{
         DefaultKind, EnumTagType, StructProperty, StructPropertyRename, StructPropertyState,
-        TypeEntry, TypeEntryDetails, TypeEntryEnum, TypeEntryNewtype, TypeEntryStruct, Variant,
-        VariantDetails, WrappedValue,
+        TypeEntry, TypeEntryDetails, TypeEntryEnum, TypeEntryNewtype, TypeEntryNewtypeConstraints,
+        TypeEntryStruct, Variant, VariantDetails, WrappedValue,
     },
     util::{sanitize, Case},
     DefaultImpl, Error, Result, TypeId, TypeSpace,
@@ -171,7 +171,37 @@ impl TypeEntry {
                     .ok_or_else(|| Error::invalid_value())
             }
 
-            TypeEntryDetails::Newtype(TypeEntryNewtype { type_id, .. }) => {
+            TypeEntryDetails::Newtype(TypeEntryNewtype {
+                type_id,
+                constraints,
+                ..
+            }) => {
+                // The value is used to construct the newtype directly so it
+                // must satisfy the constraints the type otherwise enforces.
+                let same = |other: &WrappedValue| match (other.0.as_f64(), default.as_f64()) {
+                    (Some(a), Some(b)) => a == b,
+                    _ => &other.0 == default,
+                };
+                let valid = match constraints {
+                    TypeEntryNewtypeConstraints::None => true,
+                    TypeEntryNewtypeConstraints::EnumValue(values) => values.iter().any(same),
+                    TypeEntryNewtypeConstraints::DenyValue(values) => !values.iter().any(same),
+                    TypeEntryNewtypeConstraints::String {
+                        max_length,
+                        min_length,
+                        pattern,
+                    } => default.as_str().map_or(false, |s| {
+                        let len = s.chars().count();
+                        max_length.map_or(true, |max| len <= max as usize)
+                            && min_length.map_or(true, |min| len >= min as usize)
+                            && pattern.as_ref().map_or(true, |p| {
+                                regress::Regex::new(p).map_or(false, |re| re.find(s).is_some())
+                            })
+                    }),
+                };
+                if !valid {
+                    return Err(Error::invalid_value());
+                }
                 validate_type_id(type_id, type_space, default)
             }
             TypeEntryDetails::Option(type_id) => {
